@@ -525,8 +525,18 @@ def rule_t6(repo, col):
         raise AnalysisError("Term.__repr__ missing")
     m = f.module
     found = {}
+    split = [n for n in ast.walk(f.node) if isinstance(n, ast.If) and norm(n.test) in ("len(current.op_spec) == 2", "len(current.op_spec) != 3")]
+    if len(split) != 1:
+        raise AnalysisError("Term.__repr__: unary / binary operator split not found")
+    unary_nodes = {id(x) for st in split[0].body for x in ast.walk(st)}
+    _is_open = lambda x: isinstance(x, ast.Constant) and isinstance(x.value, str) and x.value.strip() == "("
+    unary = []
     for n in ast.walk(f.node):
         if not isinstance(n, ast.If):
+            continue
+        if id(n) in unary_nodes:
+            if "current.op_priority" in norm(n.test):
+                unary.append(n)
             continue
         src = norm(n.test)
         mm = re.search(r"\b(\w+)\.op_priority\b", src)
@@ -536,8 +546,8 @@ def rule_t6(repo, col):
         if len(set(operand)) != 1:
             continue
         operand = operand[0]
-        body_paren = any(isinstance(x, ast.Constant) and x.value == "(" for b in n.body for x in ast.walk(b))
-        else_paren = any(isinstance(x, ast.Constant) and x.value == "(" for b in n.orelse for x in ast.walk(b))
+        body_paren = any(_is_open(x) for b in n.body for x in ast.walk(b))
+        else_paren = any(_is_open(x) for b in n.orelse for x in ast.walk(b))
         if body_paren == else_paren:
             raise AnalysisError("Term.__repr__: parenthesis branches of operand %s not understood" % operand)
         found[operand] = (n, body_paren)
@@ -579,6 +589,45 @@ def rule_t6(repo, col):
             parens = v if body_paren else (not v)
             col.decide("T6", m, node, not parens, "%s is printed bare (%s side)" % (what, which), "Term.__repr__ parenthesises %s" % what,
                        construct="Term.__repr__: %s operand, %s" % (which, what), function="Term.__repr__")
+    # prefix operators: an operand of higher priority (or of equal priority under an fx operator) must be parenthesised: - (1+2) is not -1+2
+    if len(unary) > 1:
+        raise AnalysisError("Term.__repr__: several priority tests in the prefix-operator branch")
+    if not unary:
+        col.fail("T6", m, split[0], "Term.__repr__ prints the operand of a prefix operator without looking at its priority: - (1+2) is printed as -1+2, which reads as (-1)+2 - the printed "
+                 "program computes another value", construct="Term.__repr__: prefix operand never parenthesised", function="Term.__repr__")
+        return
+    node = unary[0]
+    ops = set(x for x in re.findall(r"\b(\w+)\.op_priority\b", norm(node.test)) if x != "current")
+    if len(ops) != 1:
+        raise AnalysisError("Term.__repr__: prefix operand test not understood")
+    operand = ops.pop()
+    body_paren = any(_is_open(x) for b in node.body for x in ast.walk(b))
+    else_paren = any(_is_open(x) for b in node.orelse for x in ast.walk(b))
+    if body_paren == else_paren:
+        raise AnalysisError("Term.__repr__: parenthesis branches of the prefix operand not understood")
+    bad = []
+    for spec in ("fy", "fx"):
+        for pa in (PC - 100, PC, PC + 100):
+            mapping = [("isinstance(%s, Term)" % operand, True), ("isinstance(%s, Constant)" % operand, False), ("%s.op_priority" % operand, pa), ("current.op_priority", PC), ("current.op_spec", spec)]
+            v = dtable.eval_atom(norm(node.test), mapping, default=None)
+            if v is None:
+                raise AnalysisError("Term.__repr__: prefix parenthesis test not decidable: %s" % norm(node.test)[:120])
+            parens = v if body_paren else (not v)
+            must = pa > PC or (pa == PC and spec == "fx")
+            may = pa >= PC
+            if (must and not parens) or (parens and not may):
+                bad.append("operand of priority %s under an %s operator of priority %s: %s" % (pa, spec, PC, "parenthesised" if parens else "not parenthesised"))
+    col.decide("T6", m, node, not bad, "the operand of a prefix operator is parenthesised when its priority requires it",
+               "Term.__repr__ prints the operand of a prefix operator with the wrong grouping (%s): - (1+2) printed as -1+2 reads as (-1)+2" % "; ".join(bad[:2]),
+               construct="Term.__repr__: prefix operand parentheses", function="Term.__repr__")
+    for mapping, what in (([("isinstance(%s, Term)" % operand, False), ("isinstance(%s, Constant)" % operand, False)], "a non-term operand"),
+                          ([("isinstance(%s, Term)" % operand, True), ("isinstance(%s, Constant)" % operand, False), ("%s.op_priority" % operand, None)], "an operand that is not an operator term")):
+        v = dtable.eval_atom(norm(node.test), mapping + [("current.op_priority", PC), ("current.op_spec", "fy")], default=None)
+        if v is None:
+            raise AnalysisError("Term.__repr__: prefix parenthesis test not decidable for %s" % what)
+        parens = v if body_paren else (not v)
+        col.decide("T6", m, node, not parens, "%s of a prefix operator is printed bare" % what, "Term.__repr__ parenthesises %s of a prefix operator" % what,
+                   construct="Term.__repr__: prefix operand, %s" % what, function="Term.__repr__")
 
 
 def _fold_text(e, tokens):
@@ -673,6 +722,159 @@ def rule_t7(repo, col):
                        kind or "atom", "without" if kind else "in", bad[:1]), construct="Not.__repr__: child %s" % (kind or "other"), function="Not.__repr__")
 
 
+def _repr_chain(f):
+    """the if/elif chain over `current` in the work-list loop of Term.__repr__: [(test, body)]"""
+    loops = [n for n in ast.walk(f.node) if isinstance(n, ast.While) and norm(n.test) == "stack"]
+    if len(loops) != 1:
+        raise AnalysisError("Term.__repr__: work-list loop not found")
+    chains = [st for st in loops[0].body if isinstance(st, ast.If) and "current" in norm(st.test)]
+    if len(chains) != 1:
+        raise AnalysisError("Term.__repr__: dispatch on the current subterm not found")
+    out = []
+    cur = chains[0]
+    while True:
+        out.append((cur.test, cur.body, cur))
+        if len(cur.orelse) == 1 and isinstance(cur.orelse[0], ast.If):
+            cur = cur.orelse[0]
+        else:
+            break
+    return out
+
+
+def rule_t8(repo, col):
+    """Term.__repr__: a conjunction or disjunction met as a SUBTERM (argument, operand, list element) is printed in parentheses, and no earlier branch of the dispatch
+    captures it with a text produced for another context (its memoised stand-alone text)"""
+    from .. import dtable
+
+    c = repo.cls("problog.logic", "Term")
+    f = c.methods.get("__repr__")
+    if f is None:
+        raise AnalysisError("Term.__repr__ missing")
+    m = f.module
+    chain = _repr_chain(f)
+    kinds = ("And", "Or", "Clause")
+    FUNCTOR = {"And": ",", "Or": ";", "Clause": ":-"}
+    n = 0
+    for K in kinds:
+        # a term of kind K as the parser builds it: functor / arity of the class, no operator annotation
+        mapping = [("current is None", False), ("type(current) == str", False), ("type(current) == int", False), ("isinstance(current, str)", False), ("isinstance(current, int)", False),
+                   ("isinstance(current, Term)", True), ("current is self", False), ("current is not self", True), ("current.functor", FUNCTOR[K]), ("current.arity", 2),
+                   ("current.op_spec", None), ("current.op_priority", None)] + \
+                  [("type(current) == %s" % k_, k_ == K) for k_ in kinds] + [("isinstance(current, %s)" % k_, k_ == K) for k_ in kinds]
+        branch = None
+        for test, body, node in chain:
+            v = dtable.eval_atom(norm(test), mapping, default=None)
+            if v is False:
+                continue
+            own = norm(test) in ("type(current) == %s" % K, "isinstance(current, %s)" % K)
+            if own:
+                branch = (body, node)
+                break
+            if v is True and K == "Clause":
+                n += 1
+                col.fail("T8", m, node, "Term.__repr__ has no branch for a nested clause: it is printed by the branch `%s` in functional notation, ':-(a,b)', which the parser rejects "
+                         "(p :- assertz((a :- b)) does not survive printing)" % norm(test)[:80], construct="Term.__repr__: nested Clause in functional notation", function="Term.__repr__")
+                branch = "captured"
+                break
+            # an earlier branch that may take the conjunction / disjunction
+            emitted = [norm(x.args[0]) for st in body for x in ast.walk(st) if isinstance(x, ast.Call) and norm(x.func) in ("put", "parts.append") and x.args]
+            memo = [e_ for e_ in emitted if e_ in ("current.repr", "str(current)", "repr(current)", "current.__repr__()", "current.__str__()")]
+            if memo:
+                n += 1
+                col.fail("T8", m, node, "Term.__repr__ prints a nested %s through the earlier branch `%s`, which emits %s: that is the text of the term printed on its own (no parentheses), "
+                         "so f((a, b)) is printed as f(a, b) and parses back as a term of another arity" % (K, norm(test)[:80], memo[0]),
+                         construct="Term.__repr__: nested %s captured by `%s`" % (K, norm(test)[:60]), function="Term.__repr__")
+                branch = "captured"
+                break
+            raise AnalysisError("Term.__repr__: branch `%s` may take a nested %s; not understood" % (norm(test)[:80], K))
+        if branch == "captured":
+            continue
+        if branch is None:
+            raise AnalysisError("Term.__repr__: no branch for a nested %s" % K)
+        body, node = branch
+        emits = []
+        for st in body:
+            if isinstance(st, ast.Expr) and isinstance(st.value, ast.Call) and norm(st.value.func) == "q.append" and st.value.args:
+                emits.append(st.value.args[0])
+            elif isinstance(st, ast.Assign) and norm(st.targets[0]) == "q" and isinstance(st.value, ast.Call) and dotted(st.value.func) == "deque" and st.value.args \
+                    and isinstance(st.value.args[0], (ast.List, ast.Tuple)):
+                emits.extend(st.value.args[0].elts)
+        if not emits:
+            raise AnalysisError("Term.__repr__: the %s branch does not build its queue with q.append at its top level" % K)
+        is_c = lambda e_, ch: isinstance(e_, ast.Constant) and e_.value == ch
+        wrapped = is_c(emits[0], "(") and is_c(emits[-1], ")")
+        if not wrapped:
+            # parentheses that depend on the nesting level (a test that is not about the children of the term) are a shape this rule does not decide
+            for st in body:
+                if isinstance(st, ast.If) and not re.search(r"\.args\[|\btail\b", norm(st.test)) and any(is_c(x, "(") for x in ast.walk(st)):
+                    raise AnalysisError("Term.__repr__: the %s branch parenthesises conditionally (%s); not understood" % (K, norm(st.test)[:60]))
+        n += 1
+        col.decide("T8", m, node, wrapped, "a nested %s is printed in parentheses" % K,
+                   "Term.__repr__ prints a %s that occurs as an argument, operand or list element without parentheses: %s has priority %d, above the 999 allowed for an argument, so "
+                   "%s" % ({"And": "conjunction", "Or": "disjunction", "Clause": "clause"}[K], "'%s'" % FUNCTOR[K], {"And": 1000, "Or": 1100, "Clause": 1200}[K],
+                           "call((a;b)) is printed as call(a; b), which the parser rejects, and X = (a;b) as X=a; b, which parses as (X=a);b" if K == "Or"
+                           else "f((a,b)) is printed as f(a, b), a term of another arity" if K == "And" else "assertz((a :- b)) is printed as assertz(a :- b), which the parser rejects"),
+                   construct="Term.__repr__: nested %s without parentheses" % K, function="Term.__repr__")
+    col.floor("T8.nested_kinds", n, 3)
+
+
+def _kind_mapping(expr, kind):
+    ks = ("And", "Or")
+    out = []
+    for k_ in ks:
+        out.append(("isinstance(%s, %s)" % (expr, k_), kind == k_))
+        out.append(("type(%s) == %s" % (expr, k_), kind == k_))
+        out.append(("type(%s) is %s" % (expr, k_), kind == k_))
+    for tup in ("(And, Or)", "(Or, And)"):
+        out.append(("isinstance(%s, %s)" % (expr, tup), kind in ks))
+    return out
+
+
+def rule_t9(repo, col):
+    """And.__repr__ / Or.__repr__: an operand is parenthesised exactly when leaving it bare would regroup the term: for ',' (xfy 1000) a left operand that is a conjunction or a
+    disjunction and a right operand that is a disjunction; for ';' (xfy 1100) a left operand that is a disjunction"""
+    from .. import dtable
+
+    WANT = {"And": {"left": {"And", "Or"}, "right": {"Or"}}, "Or": {"left": {"Or"}, "right": set()}}
+    n = 0
+    for cname in ("And", "Or"):
+        c = repo.cls("problog.logic", cname)
+        f = c.methods.get("__repr__")
+        if f is None:
+            raise AnalysisError("%s.__repr__ missing" % cname)
+        m = f.module
+        paths = dtable.extract(f.node, opaque_loops=True)
+        sep = ", " if cname == "And" else "; "
+        for k1 in ("And", "Or", None):
+            for k2 in ("And", "Or", None):
+                mapping = _kind_mapping("self.op1", k1) + _kind_mapping("self.op2", k2)
+                ps = dtable.compatible(paths, mapping)
+                ps = [p_ for p_ in ps if all(dtable.eval_atom(s_, mapping, None) is not None for s_, _, _ in p_.conds)]
+                if len(ps) != 1:
+                    raise AnalysisError("%s.__repr__: %d decided paths for operands of kind (%s, %s)" % (cname, len(ps), k1, k2))
+                p_ = ps[0]
+                stores = [a for fn, a, _ in p_.calls if fn == "<store>" and a[0] == "self.repr"]
+                src = stores[-1][1] if stores else (p_.value or "")
+                text = _fold_text(ast.parse(src, mode="eval").body, {"term2str(self.op1)": "\x00L\x00", "str(self.op1)": "\x00L\x00", "self.op1": "\x00L\x00",
+                                                                     "term2str(self.op2)": "\x00R\x00", "str(self.op2)": "\x00R\x00", "self.op2": "\x00R\x00"})
+                if text is None or "\x00L\x00" not in text or "\x00R\x00" not in text:
+                    raise AnalysisError("%s.__repr__: printed text not foldable: %s" % (cname, src[:100]))
+                forms = {(False, False): "\x00L\x00%s\x00R\x00", (True, False): "(\x00L\x00)%s\x00R\x00", (False, True): "\x00L\x00%s(\x00R\x00)", (True, True): "(\x00L\x00)%s(\x00R\x00)"}
+                got = [pr for pr, t_ in forms.items() if t_ % sep == text]
+                if len(got) != 1:
+                    raise AnalysisError("%s.__repr__: printed shape not understood: %r" % (cname, text))
+                lp, rp = got[0]
+                wl, wr = k1 in WANT[cname]["left"], k2 in WANT[cname]["right"]
+                n += 1
+                col.decide("T9", m, f.node, (lp or not wl) and (rp or not wr), "%s with operands (%s, %s): left %s, right %s" % (cname, k1 or "other", k2 or "other", "in parentheses" if wl else "bare", "in parentheses" if wr else "bare"),
+                           "%s.__repr__ prints operands of kind (%s, %s) as %s%s%s: %s" % (
+                               cname, k1 or "other", k2 or "other", "(L)" if lp else "L", sep, "(R)" if rp else "R",
+                               "the text then parses to a differently grouped term ('(a, b), c' printed as 'a, b, c' reads as a, (b, c))" if (lp, rp) < (wl, wr) or (not lp and wl) or (not rp and wr)
+                               else "needless parentheses change the printed programs"),
+                           construct="%s.__repr__: operands (%s, %s)" % (cname, k1 or "other", k2 or "other"), function="%s.__repr__" % cname)
+    col.floor("T9.operand_cases", n, 18)
+
+
 def run(repo, col):
     col.rule("T1", "dispatch-table coverage of the tokenizer")
     col.rule("T2", "guard before look-ahead index")
@@ -688,3 +890,7 @@ def run(repo, col):
     rule_t6(repo, col)
     col.rule("T7", "negation printing: compound children in parentheses")
     rule_t7(repo, col)
+    col.rule("T8", "nested conjunctions / disjunctions are printed in parentheses")
+    rule_t8(repo, col)
+    col.rule("T9", "And / Or printing: operands that would regroup are parenthesised")
+    rule_t9(repo, col)
